@@ -246,6 +246,8 @@ static void lookup_cost_check(int id) {
 }
 
 /* ------------------------------------------------------------------ C01 content oracle */
+/* a stored value of length 0 is legal (putobj(name, size, NULL, 0), putstr(name, NULL)): the key is present, reads deliver no bytes */
+static bool val_ok(const void *d, size_t sz, int p) { return ME[p].vl == 0 ? (d == NULL && sz == 0) : (d != NULL && sz == ME[p].vl && !memcmp(d, ME[p].v, sz)); }
 static void content_check(void) {
     vf_count("content_compares", 1);
     if (T->size(T) != (size_t)MN) { judge("C01", "size", "size()=%zu model=%d", T->size(T), MN); return; }
@@ -255,8 +257,8 @@ static void content_check(void) {
         size_t sz = 12345; errno = 0;
         void *d = T->getobj(T, UK[id].k, UK[id].kl, &sz, false);
         if (f) {
-            if (!d) { judge("C01", "key-lost", "key %d (%s) vanished", id, vf_hex(UK[id].k, UK[id].kl)); return; }
-            if (sz != ME[p].vl || memcmp(d, ME[p].v, sz)) { judge("C01", "value-changed", "key %d holds wrong value (size %zu, expected %zu)", id, sz, ME[p].vl); return; }
+            if (!d && (ME[p].vl || errno == ENOENT)) { judge("C01", "key-lost", "key %d (%s) vanished", id, vf_hex(UK[id].k, UK[id].kl)); return; }
+            if (!val_ok(d, sz, p)) { judge("C01", "value-changed", "key %d holds wrong value (size %zu, expected %zu)", id, sz, ME[p].vl); return; }
         } else if (d) { judge("C01", "phantom-key", "absent key %d (%s) found", id, vf_hex(UK[id].k, UK[id].kl)); return; }
     }
     size_t ns = 0; errno = 0;
@@ -296,6 +298,8 @@ static void op_put(int id) {
     ukey_t *k = &UK[id];
     int api = k->is_str ? (int)rng_below(&R, 4) : 0;      /* 0 putobj 1 put 2 putstr 3 putstrf */
     size_t vl = gen_value(api >= 2);
+    bool nullval = false;
+    if (api < 3 && rng_chance(&R, 1, 12)) { vl = 0; nullval = api == 2 || rng_chance(&R, 1, 2); vf_count("put_empty_value", 1); }   /* zero-length value, as a NULL or a non-NULL pointer */
     cbuf_t kb = cb_make(k->k, k->kl, P == 11 && rng_chance(&R, 1, 2));
     cbuf_t vb = cb_make(VBUF, vl, false);
     qtreetbl_obj_t *oldroot = T->root;
@@ -303,9 +307,9 @@ static void op_put(int id) {
     vf_log("put[%s] k%d=%s v=%s", (const char *[]){"putobj", "put", "putstr", "putstrf"}[api], id, vf_hex(k->k, k->kl), vf_hex(VBUF, vl));
     oom_begin();
     switch (api) {
-    case 0: r = T->putobj(T, kb.p, kb.n, vb.p, vb.n); break;
-    case 1: r = T->put(T, (char *)kb.p, vb.p, vb.n); break;
-    case 2: r = T->putstr(T, (char *)kb.p, (char *)vb.p); break;
+    case 0: r = T->putobj(T, kb.p, kb.n, nullval ? NULL : vb.p, vb.n); break;
+    case 1: r = T->put(T, (char *)kb.p, nullval ? NULL : vb.p, vb.n); break;
+    case 2: r = T->putstr(T, (char *)kb.p, nullval ? NULL : (char *)vb.p); break;
     default: r = T->putstrf(T, (char *)kb.p, "%s", (char *)vb.p); break;
     }
     long hits = oom_end();
@@ -339,8 +343,8 @@ static void op_get(int id) {
     if (hits) { OOMCTX = "get"; if (!d) { vf_count("oom_reported_failure", 1); return; } vf_count("oom_completed_despite_failure", 1); }
     vf_count(f ? "get_hit" : "get_miss", 1);
     if (f) {
-        if (!d) judge("C01", "get-miss", "get of present key %d returned NULL", id);
-        else if (sz != ME[p].vl || memcmp(d, ME[p].v, sz)) judge("C01", "get-wrong", "get of key %d: size %zu expected %zu or bytes differ", id, sz, ME[p].vl);
+        if (!d && ME[p].vl) judge("C01", "get-miss", "get of present key %d returned NULL", id);
+        else if (!val_ok(d, sz, p)) judge("C01", "get-wrong", "get of key %d: size %zu expected %zu or bytes differ", id, sz, ME[p].vl);
     } else {
         if (d) judge("C01", "get-phantom", "get of absent key %d returned data", id);
         else if (e != ENOENT) judge("C01", "get-errno", "get of absent key %d: errno=%d, expected ENOENT", id, e);
@@ -407,7 +411,7 @@ static bool cmp_entry(const char *prop, const char *what, qtreetbl_obj_t *o, int
     if (!o->name || o->namesize != k->kl || memcmp(o->name, k->k, k->kl)) {
         judge(prop, what, "position %d: got key %s, expected key %d %s", mi, vf_hex(o->name, o->name ? o->namesize : 0), ME[mi].id, vf_hex(k->k, k->kl));
         return false; }
-    if (!o->data || o->datasize != ME[mi].vl || memcmp(o->data, ME[mi].v, ME[mi].vl)) {
+    if (!val_ok(o->data, o->datasize, mi)) {
         judge(prop, what, "position %d key %d: value/size differs (size %zu expected %zu)", mi, ME[mi].id, o->datasize, ME[mi].vl);
         return false; }
     return true;
@@ -497,7 +501,7 @@ static void op_nearest(int id, bool newmem, int cont, int stop) {
         vf_cpu_disarm();
         if (!r) { ended = true; break; }
         bool ff; int mp = m_find(obj.name, obj.namesize, &ff);
-        bool bad = !ff || !obj.data || obj.datasize != ME[mp].vl || memcmp(obj.data, ME[mp].v, ME[mp].vl);
+        bool bad = !ff || !val_ok(obj.data, obj.datasize, mp);
         if (newmem) { free(obj.name); free(obj.data); }
         if (bad) { if (audit) judge("C04", "continuation-foreign", "continuation returned a key/value that is not stored"); hm_free(seen); return; }
         if (seen[mp] && audit) { judge("C04", "continuation-duplicate", "continuation visited key %d twice", ME[mp].id); hm_free(seen); return; }
@@ -819,7 +823,7 @@ static void oom_do(int o, int id) {
     case OO_GET: { ukey_t *k = &UK[id]; bool f; int p = m_find(k->k, k->kl, &f); size_t sz = 0; vf_log("getobj(newmem) k%d", id);
         oom_begin(); void *d = T->getobj(T, k->k, k->kl, &sz, true); long hits = oom_end();
         if (hits) { OOMCTX = "get"; if (!d) { vf_count("oom_reported_failure", 1); break; } vf_count("oom_completed_despite_failure", 1); }
-        if (f ? (!d || sz != ME[p].vl || memcmp(d, ME[p].v, sz)) : d != NULL) judge("C01", "get-wrong", "get(newmem) of key %d wrong", id);
+        if (f ? !val_ok(d, sz, p) : d != NULL) judge("C01", "get-wrong", "get(newmem) of key %d wrong", id);
         free(d); break; }
     case OO_WALK: op_walk(-1, true); break;
     case OO_NEAREST: op_nearest(id, true, 0, 0); break;
